@@ -7,7 +7,7 @@ from .common import *
 from . import shared
 
 CONFIGS = ['default', 'full']
-TECHNIQUE = 'MIR path rules (ranking function of the main loop, typestate of the timer stack), decision tables of the limit tests, call-graph dead-code guards'
+TECHNIQUE = 'MIR path rules (ranking function of the main loop, typestate of the timer stack), decision tables of the limit tests, call-graph dead-code guards, may-return variant sets of callees for panicking match arms'
 EXPLANATION = (
     "Decides on the MIR of the current tree, for all inputs: (R1) every cycle of the main loop either increments "
     "the iteration counter or switches the scaling strategy PrimalDual->Dual (which can happen once), i.e. a "
@@ -17,7 +17,9 @@ EXPLANATION = (
     "timer (Timers::suspend) so solve_time advances; (R4) the timer stack is balanced on every path; (R5) the "
     "auxiliary loops are counter-bounded; (R6) dimension checks dominate construction and each relation diverges "
     "when violated; (R7) the unreachable!() cone methods are dead: guarded by is_symmetric, or unreachable from the API roots; (R7b) settings validator and dispatcher accept the same option strings; (R9) P is reduced to its upper triangle and the cone list collapsed before use; (R10) the progress printer reaches _exp_str_reformat (which unwraps find('e')) only on the true edge of is_finite(value); (R11) the QDLDL wrapper unwraps refactor() only while the engine's pivot regularisation is unconditionally on; (R12) who-may-write the status (re-run of the status provenance rule: a rollback or helper that resets it to Unsolved on a terminating path returns a non-terminal status); (R13) every index in the printing module is bounded by the indexed collection's own length. NOT decided: absence "
-    "of all panics (bounds checks, arithmetic, BLAS failures), termination of data-dependent inner loops.")
+    "of all panics (bounds checks, arithmetic, BLAS failures), termination of data-dependent inner loops."
+    " (R14) match arms that panic (unreachable!) on a variant of a crate function's result are dead: the callee never constructs that variant."
+    " (R15) no panicking std conversion (Duration::from_secs_f64/f32) is applied to a settings field; (R16) the cone clean-up keeps a cone only after the type-independent test nvars() != 0.")
 ASSUMPTIONS = [
     'rustc MIR construction and trait resolution are correct',
     'iteration counter does not overflow u32 (max_iter is u32 and the loop stops at equality)',
@@ -750,6 +752,129 @@ def print_index_bounds(rep, F, tag):
     R.guard(body)
 
 
+def dead_match_arms(rep, F, G, tag):
+    """`match f(..) { .., V(_) => unreachable!() }`: the arm is dead only while f never constructs variant V.  For every explicit panic that
+    is the target of a switch on the discriminant of a crate function's result, the callee (all resolved targets) must not build that
+    variant anywhere in its body (flow-insensitive may-return set: an over-approximation, so silence is sound)."""
+    R = rep.rule('C04.R14', 'match arms that panic on a variant of a crate function\'s result are dead: the callee never constructs that variant')
+
+    def body():
+        n = 0
+        for f in F.fns:
+            if f.from_expansion or f.impl_exp:
+                continue
+            panics = {c.bb for c in f.calls if (c.callee.key or '').startswith('core::panicking::panic') and 'bounds' not in (c.callee.key or '') and 'misaligned' not in (c.callee.key or '') and 'null' not in (c.callee.key or '')}
+            if not panics:
+                continue
+            for b, blk in enumerate(f.blocks):
+                t = blk['t']
+                if t.get('k') != 'switch':
+                    continue
+                hit = [(v, tb) for v, tb in t.get('ts', []) if tb in panics]
+                if not hit:
+                    continue
+                d = t['d'].get('m') or t['d'].get('c')
+                if d is None or d['p']:
+                    continue
+                src = None
+                for st in blk['s']:
+                    if 'rv' in st and st['rv'].get('k') == 'discr' and st['p']['l'] == d['l'] and not st['rv']['p']['p']:
+                        src = st['rv']['p']['l']
+                if src is None:
+                    continue
+                calls = [c for c in f.calls if not c.dest['p'] and c.dest['l'] == src]
+                if len(calls) != 1:
+                    continue
+                c = calls[0]
+                tks = [k for k in G.targets_of(f, c) if k in F.by_key]
+                if not tks:
+                    continue
+                for v, tb in hit:
+                    n += 1
+                    for tk in tks:
+                        g = F.by_key[tk][0]
+                        built = set()
+                        unknown = False
+                        for bi, si, st in g.assignments():
+                            rv = st['rv']
+                            if rv['k'] == 'agg' and rv['ak']['a'] == 'adt' and 'vi' in rv['ak'] and not st['p']['p']:
+                                rty = (g.local_ty(st['p']['l']) if hasattr(g, 'local_ty') else None)
+                                built.add((rv['ak']['adt'], int(rv['ak']['vi']), rv['ak'].get('variant')))
+                        # the result type's ADT: take it from the aggregates assigned to _0 or flowing there; compare by discriminant index
+                        ret_adts = {a for a, vi, nm in built if any(st['p']['l'] == 0 and not st['p']['p'] and st['rv']['k'] == 'agg' and st['rv']['ak'].get('adt') == a for bi, si, st in g.assignments())}
+                        if not ret_adts:
+                            # value returned through a local / another call: fall back to the callee's declared return type name
+                            m = re.search(r'->\s*([\w:]+)', g.fty or '') if hasattr(g, 'fty') else None
+                            ret_adts = {a for a, vi, nm in built if m and a.endswith(m.group(1).split('::')[-1])}
+                        bad = [(a, vi, nm) for a, vi, nm in built if a in ret_adts and str(vi) == str(v)]
+                        R.check(not bad, 'dead-arm|%s|%s|%s%s' % (short(f.key), g.name, v, tag),
+                                '%s panics (unreachable!) when %s returns %s, but %s constructs that variant: the solve aborts instead of terminating with a status' % (
+                                    f.key, g.name, bad[0][2] if bad else v, g.key), f.loc(c.sp))
+        R.check(n >= 1, 'sites' + tag, 'no match-arm panic on a call result found (expected the scaling checkpoint in solve)')
+
+    R.guard(body)
+
+
+def empty_cones_dropped(rep, F, tag):
+    """Cone constructors assert a minimum dimension (a second-order cone needs dim >= 2): an empty cone of *any* type in the user's
+    list must be removed by the clean-up pass, not only empty zero / nonnegative cones.  In new_collapsed every cone that is kept
+    (pushed, or used to start a collapsed run) has been tested nvars() != 0, whatever its type."""
+    R = rep.rule('C04.R16', 'cone clean-up: a cone is kept only after the type-independent test nvars() != 0 (an empty cone of any type is dropped before its constructor can assert)')
+
+    def body():
+        f = F.one(name='new_collapsed')
+        n = 0
+        for val, ret, ev, tr in Walker(f, cut_loops=True).leaves():
+            kept = [e for e in ev if e[0] == 'call' and e[1] in ('push', 'collapse')]
+            if not kept:
+                continue
+            n += 1
+            nz = [v for k, v in val.items() if re.fullmatch(r'ne\((0_usize, nvars\(.*\)|nvars\(.*\), 0_usize)\)', k)] + \
+                 [1 - v for k, v in val.items() if re.fullmatch(r'eq\((0_usize, nvars\(.*\)|nvars\(.*\), 0_usize)\)', k)] + \
+                 [v for k, v in val.items() if re.fullmatch(r'lt\(0_usize, nvars\(.*\)\)', k)]
+            R.check(bool(nz) and nz[0] == 1, 'kept-only-nonempty|%s%s' % (sorted(v for k, v in val.items() if k.startswith('discr(') and k.endswith('@Some.0)')), tag),
+                    'new_collapsed keeps a cone (%s) on a path that has not established nvars() != 0 (tests: %s): an empty cone of that type reaches its constructor, '
+                    'whose dimension assert aborts DefaultSolver::new' % (kept[0][1], sorted(k[:60] for k in val)), f.loc())
+        R.check(n >= 3, 'paths' + tag, 'only %d keeping paths of new_collapsed analysed' % n, f.loc())
+
+    R.guard(body)
+
+
+def settings_conversions(rep, F, tag):
+    """Duration::from_secs_f64 / from_secs_f32 panic on negative, non-finite or huge (> ~1.8e19) arguments.  Applied to a measured time
+    that is fine; applied to a user setting (time_limit may legitimately be f64::MAX - the JSON writer stores exactly that for
+    "no limit") it turns a verbose solve into a panic."""
+    R = rep.rule('C04.R15', 'no panicking std conversion (Duration::from_secs_f64/f32) is applied to a settings field')
+
+    def body():
+        fields = set()
+        for nm in ('DefaultSettings', 'CoreSettings'):
+            try:
+                for v in F.adt(nm)['variants']:
+                    fields |= {fl['n'] for fl in v['fields']}
+            except Exception:
+                pass
+        if len(fields) < 10:
+            raise AnchorError('settings fields not found')
+        n = 0
+        for f in F.fns:
+            if f.from_expansion:
+                continue
+            for c in f.calls:
+                k = c.callee.key or ''
+                if not re.search(r'Duration::(from_secs_f64|from_secs_f32)$', k):
+                    continue
+                n += 1
+                a = canon(f.sym_operand(c.args[0]))
+                hit = [x for x in fields if re.search(r'\.%s\b' % re.escape(x), a)]
+                R.check(not hit, 'settings-duration|%s|%s%s' % (short(f.key), ','.join(sorted(hit)), tag),
+                        '%s converts the setting %s with %s, which panics for values above ~1.8e19 s, negative or NaN: use the fallible '
+                        'try_from_secs_f64 or format the number itself' % (f.key, sorted(hit), k.rsplit('::', 1)[-1]), f.loc(c.sp))
+        R.check(n >= 1, 'sites' + tag, 'no Duration::from_secs_f64 call found (expected the footer\'s solve time)')
+
+    R.guard(body)
+
+
 def run(ctx, rep, tier):
     for cfg in CONFIGS:
         F = ctx.facts(cfg)
@@ -767,6 +892,9 @@ def run(ctx, rep, tier):
         exp_format_guard(rep, F, tag)
         qdldl_unwrap_guard(rep, F, tag)
         print_index_bounds(rep, F, tag)
+        dead_match_arms(rep, F, G, tag)
+        settings_conversions(rep, F, tag)
+        empty_cones_dropped(rep, F, tag)
         shared.status_provenance(rep, F, E, tag, 'C04.R12', statuses=('Solved',), full_fn='check_convergence_full', slot=9)
         # degenerate cones (empty, singleton) are collapsed before anything else sees the cone list
         from . import c05
